@@ -452,6 +452,11 @@ def j_concat(f: str, x: Any, args: list[Any], kw: dict[str, Any], res: Any, ctx:
     return _expect("concat", "nested" if not flat(x) else "flat", f, val, flatten(ctx["x_pristine"]) + list(ctx["a_pristine"][0]))
 
 
+def _cross_type_equal(p: Any, t: Any) -> bool:
+    return (isinstance(p, (bool, int, float)) and isinstance(t, (bool, int, float))
+            and type(p) is not type(t) and p == t)
+
+
 def _dicts_only(f: str, x: Any) -> None:
     _need_flat_list(f, x)
     if not all(isinstance(e, dict) for e in x):
@@ -481,12 +486,15 @@ def j_where_reject(f: str, x: Any, args: list[Any], kw: dict[str, Any], res: Any
     has_target = len(args) > 1
     if has_target:
         t = args[1]
-        if t is None or t is UNDEF or isinstance(t, (bool, float, list, dict)):
-            raise Unspecified(f"{f}: nil/undefined/bool/float/compound comparison value (equality not documented here)")
-        if isinstance(t, int) and any(
-            (isinstance(e.get(key), bool) and t in (0, 1)) or (isinstance(e.get(key), float) and e.get(key) == t) for e in x
-        ):
-            raise Unspecified(f"{f}: int compared with an equal-valued bool/float property (equality is another property's business)")
+        # docs: "objects that have a property ... equal to a value, given as the second argument": any explicit
+        # scalar value -- including 0, 0.0, "" and false -- is compared for equality.  nil/undefined ("not given"?)
+        # and compound values are left alone, and so is every list in which equality would have to be decided
+        # between numbers/bools of different types (1 vs true, 0 vs false, 0 vs 0.0: C12's business).
+        if t is None or t is UNDEF or isinstance(t, (list, dict)):
+            raise Unspecified(f"{f}: nil/undefined/compound comparison value (docs do not say whether it counts as given)")
+        if any(_cross_type_equal(e.get(key), t) for e in x):
+            raise Unspecified(f"{f}: comparison value equal to a property of another numeric/bool type "
+                              "(equality across types is another property's business)")
         match: Callable[[Any], bool] = lambda v: same(v, t)  # noqa: E731
     else:
         match = truthy
@@ -504,7 +512,7 @@ def j_where_reject(f: str, x: Any, args: list[Any], kw: dict[str, Any], res: Any
     if fails:
         return fails
     if has_target:
-        feature = "value"
+        feature = "value" if args[1] else "value:python-falsy"
     else:
         zeroish = any(key in e and is_num(e[key]) and e[key] == 0 for e in x)
         feature = "truthiness:zero-valued-property" if zeroish else "truthiness"
@@ -911,6 +919,7 @@ DOC_EXAMPLES: list[tuple[Any, ...]] = [
     _ex("where", [{"t": "h", "a": True}, {"t": "k", "a": False}, {"t": "k", "a": True}], ["t", "k"],
         [{"t": "k", "a": False}, {"t": "k", "a": True}]),
     _ex("where", [{"t": "h", "a": True}, {"t": "k", "a": False}], ["a"], [{"t": "h", "a": True}]),
+    _ex("where", [{"t": "h", "a": True}, {"t": "k", "a": False}], ["a", False], [{"t": "k", "a": False}]),
 ]
 
 # answers the model must REJECT (guards against a vacuous oracle)
@@ -925,6 +934,10 @@ WRONG_ANSWERS: list[tuple[Any, ...]] = [
     _ex("slice", "Liquid", [-3, 2], "qu"), _ex("first", "abc", [], "a"), _ex("default", [], [[1]], []),
     _ex("default", 0, [9], 9), _ex("default", False, [9], 9, {"allow_false": True}), _ex("concat", [[1]], [[[2]]], [1, 2]),
     _ex("map", [{"k": 1}, {}], ["k"], [1]), _ex("at_least", 1, [2.5], 2), _ex("abs", -2, [], 2.0),
+    _ex("where", [{"k": 0}, {"k": 1}, {"k": None}], ["k", 0], [{"k": 0}, {"k": 1}]),
+    _ex("where", [{"k": ""}, {"k": "a"}], ["k", ""], [{"k": ""}, {"k": "a"}]),
+    _ex("reject", [{"k": 0}, {"k": 1}, {"k": None}], ["k", 0], [{"k": None}]),
+    _ex("reject", [{"k": False}, {"k": True}, {"k": None}], ["k", False], [{"k": False}, {"k": None}]),
 ]
 
 
